@@ -153,7 +153,12 @@ def main():
             return res
         return (not res) if isinstance(res, bool) else z3.Not(res)
 
+    def m_panic(e, m, a):
+        e.violations.append({"kind": "panic", "message": "panic_fmt reached (todo!/unreachable!/expect)", "function": fn.name, "model": None})
+        raise PanicFound("panic_fmt", None)
+
     extern = [
+        (r"^(?:core::panicking::)?panic_fmt$", m_panic),
         (r"^<std::option::Option<&Value> as PartialEq>::(eq|ne)$", m_opt_value_eq),
         (r"^<Value as PartialEq>::(eq|ne)$", m_value_eq),
         (r"^Value::resolve$", m_resolve),
@@ -176,7 +181,7 @@ def main():
         hold = {0: ("operand", h)}
         return [[Ref(hold, 0, ())]]
 
-    def scenario(n, errs):
+    def scenario(n, errs, range_kind="list"):
         """n list elements; errs: which evaluation fails: None | ('range',) | ('init',) | ('cond', k) | ('step', k) | ('result',)"""
         stats["scenarios"] += 1
         eng = Engine(fns, consts, extern)
@@ -188,7 +193,9 @@ def main():
         ok = lambda v: ("enum", "Result::Ok", [v])
         err = lambda w: ("enum", "Result::Err", [("abs_err", w)])
         results = {
-            "range": err("range") if errs == ("range",) else ok(("enum", "Value::List", [("arc", items)])),
+            "range": err("range") if errs == ("range",) else (ok(("enum", "Value::List", [("arc", items)])) if range_kind == "list" else
+                                                              ok({"int": ("enum", "Value::Int", [7]), "null": ("enum", "Value::Null", []), "bool": ("enum", "Value::Bool", [True]),
+                                                                  "string": ("enum", "Value::String", [("abs", "s")])}[range_kind])),
             "init": err("init") if errs == ("init",) else ok(("abs_val", "init")),
             "cond": [err("cond%d" % k) if errs == ("cond", k) else ok(("enum", "Value::Bool", [conds[k]])) for k in range(n + 1)],
             "step": [err("step%d" % k) if errs == ("step", k) else ok(("abs_val", "acc%d" % k)) for k in range(n + 1)],
@@ -197,7 +204,7 @@ def main():
         comp = [box("range"), ("string", "x"), ("None",), ("string", "@result"), box("init"), box("cond"), box("step"), box("result")]
         expr = [3, ("enum", "Expr::Comprehension", [comp])]
         pseudo = {0: expr}
-        desc = {"elements": n, "failing": list(errs) if errs else None}
+        desc = {"elements": n, "failing": list(errs) if errs else None, "range_kind": range_kind}
 
         def entry(e):
             cur.clear()
@@ -206,6 +213,13 @@ def main():
 
         def on_path(res, e):
             ev = cur["events"]
+            if range_kind != "list":
+                # a range that is neither a list nor a map: an execution error, never a panic
+                if isinstance(res, tuple) and res[1] == "Result::Err":
+                    stats["proved"] += 1
+                else:
+                    failures.append(dict(desc, problems=["a %s range is not an execution error: %r" % (range_kind, res)]))
+                return
             # ---- reference trace
             # the range and the accumulator initialiser are both evaluated in the outer scope before
             # anything else; their mutual order is not prescribed (the code evaluates init first)
@@ -267,6 +281,8 @@ def main():
             cases = [None, ("range",), ("init",), ("result",)] + [("cond", k) for k in range(n)] + [("step", k) for k in range(n)]
             for c in cases:
                 scenario(n, c)
+        for rk in ("int", "null", "bool", "string"):
+            scenario(0, None, rk)
     except Unsupported as u:
         status = 2
         print("INCONCLUSIVE: unsupported: %s" % u)
